@@ -340,4 +340,16 @@ theorem patch_step (cfg : Cfg) (hp : cfg.patched = true) (s s' : State) (i : Ste
   simp [hev]; exact key.2
 
 
+/-! ### the receive buffer across a link loss -/
+
+/-- while the link is down no bytes of an old frame are left in the receive buffer -/
+def FrameInv (s : State) : Prop := s.up = false → s.stale = 0
+
+theorem frame_init (cfg : Cfg) : FrameInv (init cfg) := fun _ => rfl
+
+theorem frame_step (cfg : Cfg) (s s' : State) (i : Step) (h : FrameInv s) (hs : step cfg s i = some s') : FrameInv s' := by
+  obtain ⟨s1, hs1, rfl⟩ := step_mark hs
+  show s1.up = false → s1.stale = 0
+  cases i <;> simp only [step0] at hs1 <;> (repeat' (split at hs1)) <;> cases hs1 <;> simp_all [FrameInv]
+
 end SecsModel.Proofs.Txn
